@@ -14,6 +14,9 @@
 #include <link.h>
 #include <unistd.h>
 #include <sys/stat.h>
+#include <fcntl.h>
+#include <signal.h>
+#include <sys/wait.h>
 
 // ------------------------------------------------------------------ ledger + fault oracle
 #define LEDGER_BITS 17
@@ -300,12 +303,39 @@ static void compile_rules(const char* key, YR_RULES** out, char* tok, size_t cap
   if (rc != ERROR_SUCCESS) { snprintf(tok, cap, "CREATE:%s", errname(rc)); return; }
   e.c = comp;
   yr_compiler_set_callback(comp, cerr_cb, &e);
-  yr_compiler_set_include_callback(comp, inc_cb, inc_free, NULL);
+  // definc=1: the library's DEFAULT include callback (reads the included file from disk) instead of the harness's
+  if (!geti("definc", 0)) yr_compiler_set_include_callback(comp, inc_cb, inc_free, NULL);
   rc = define_exts_compiler(comp);
   if (rc != ERROR_SUCCESS) { snprintf(tok, cap, "DEFINE:%s", errname(rc)); yr_compiler_destroy(comp); return; }
-  size_t l; char* src = (char*) unhex(get(key, "-"), &l);
-  int errs = yr_compiler_add_string(comp, src, NULL);
-  free(src);
+  // aqt=<path>: an atom quality table is loaded first
+  if (get("aqt", NULL) && !strcmp(key, "text"))
+  {
+    rc = yr_compiler_load_atom_quality_table(comp, get("aqt", ""), 0);
+    if (rc != ERROR_SUCCESS) { snprintf(tok, cap, "AQT:%s", errname(rc)); yr_compiler_destroy(comp); return; }
+  }
+  // src=file|fd path=<rules file>: the source is a file given to yr_compiler_add_file / yr_compiler_add_fd (as the CLI does)
+  const char* srcmode = !strcmp(key, "text") ? get("src", "string") : "string";
+  int errs;
+  if (!strcmp(srcmode, "file"))
+  {
+    FILE* f = fopen(get("path", "/nonexistent"), "r");
+    if (!f) { snprintf(tok, cap, "SETUP_FAILED:fopen"); yr_compiler_destroy(comp); return; }
+    errs = yr_compiler_add_file(comp, f, NULL, get("path", ""));
+    fclose(f);
+  }
+  else if (!strcmp(srcmode, "fd"))
+  {
+    int fd = open(get("path", "/nonexistent"), O_RDONLY);
+    if (fd < 0) { snprintf(tok, cap, "SETUP_FAILED:open"); yr_compiler_destroy(comp); return; }
+    errs = yr_compiler_add_fd(comp, fd, NULL, get("path", ""));
+    close(fd);
+  }
+  else
+  {
+    size_t l; char* src = (char*) unhex(get(key, "-"), &l);
+    errs = yr_compiler_add_string(comp, src, NULL);
+    free(src);
+  }
   if (errs)
   {
     if (e.errors == 0) snprintf(tok, cap, "CERR_NO_CALLBACK:%s", errname(comp->last_error));
@@ -433,6 +463,40 @@ static void run_case(const char* kind, char* rc, char* res, size_t cap)
     // the saved-from rules must still work
     if (r != ERROR_SUCCESS && !strcmp(kind, "save")) scan_rules(rules, res, cap);
     free(m.buf);
+  }
+  else if (!strcmp(kind, "stats"))
+  {
+    YR_RULES_STATS st; memset(&st, 0, sizeof st);
+    arm(); int r = yr_rules_get_stats(rules, &st); disarm();
+    snprintf(rc, cap, "%s", errname(r));
+    if (r == ERROR_SUCCESS) snprintf(res, cap, "rules=%u,strings=%u,acm=%u", st.num_rules, st.num_strings, st.ac_matches);
+    else scan_rules(rules, res, cap);
+  }
+  else if (!strcmp(kind, "profinfo"))
+  {
+    if (yr_scanner_create(rules, &sc) != ERROR_SUCCESS) { snprintf(rc, cap, "SETUP_FAILED:scanner"); yr_rules_destroy(rules); return; }
+    OBS o; memset(&o, 0, sizeof o);
+    yr_scanner_set_callback(sc, scan_cb, &o);
+    yr_scanner_scan_mem(sc, g_data, g_data_len);
+    arm(); YR_RULE_PROFILING_INFO* pi = yr_scanner_get_profiling_info(sc); disarm();
+    // the function has no error code: NULL is its way to report that the array could not be allocated
+    snprintf(rc, cap, "%s", pi ? "OK" : "INSUFFICIENT_MEMORY(NULL)");
+    if (pi) { int n = 0; while (pi[n].rule != NULL) n++; snprintf(res, cap, "entries=%d", n); yr_free(pi); }
+    else { memset(&o, 0, sizeof o); int rs = yr_scanner_scan_mem(sc, g_data, g_data_len); obs_print(res, cap, rs, &o); }
+    yr_scanner_destroy(sc);
+  }
+  else if (!strcmp(kind, "pscan"))
+  {
+    // scan of another process: a child that executes a small non-instrumented program and sleeps
+    pid_t pid = fork();
+    if (pid == 0) { execl("/bin/sleep", "sleep", "600", (char*) NULL); _exit(127); }
+    if (pid < 0) { snprintf(rc, cap, "SETUP_FAILED:fork"); yr_rules_destroy(rules); return; }
+    usleep(150000);
+    OBS o; memset(&o, 0, sizeof o);
+    arm(); int r = yr_rules_scan_proc(rules, (int) pid, 0, scan_cb, &o, 0); disarm();
+    kill(pid, SIGKILL); waitpid(pid, NULL, 0);
+    snprintf(rc, cap, "%s", errname(r));
+    obs_print(res, cap, r, &o);
   }
   else if (!strcmp(kind, "screate"))
   {
